@@ -15,6 +15,7 @@ def tinyfy(rng, t, p=0.3):
     return t
 
 PROP = "C15"
+PAR_OK = True
 LEVEL = "proof"
 RULE = ("random multifurcating trees (3..14 tips, 20 in thorough; rooted/unrooted; parent slot at random positions; lengths "
         "all/mixed/none with zeros and, in 30% of the trees, tiny dyadic lengths 2^-27 2^-30 2^-40 3*2^-35 (in half of the insert cases on "
